@@ -29,7 +29,7 @@ CHECKS = {
     "dds/_introspect_indirect.py": ["C09", "C11", "C01", "C14"],
     "dds/_retrieve_objects.py": ["C01", "C14", "C03", "C02"],
     "dds/structures_utils.py": ["C11", "C09", "C04", "C10"],
-    "dds/_api.py": ["C04", "C01", "C10", "C15", "C09", "C11", "C16", "C12"],
+    "dds/_api.py": ["C04", "C01", "C10", "C15", "C09", "C11", "C16", "C12", "C19", "C18"],
     "dds/codec.py": ["C17", "C19"],
     "dds/codecs/builtins.py": ["C17", "C04"],
     "dds/codecs/databricks.py": ["C19"],
